@@ -11,6 +11,7 @@ PROP = "C10"
 DRIVERS = ["drv_serial"]
 LEAN_TARGETS = ["Pyrtma.Props.C10"]
 LEVEL = "proof"
+ISOLATE = True          # the real code runs in a forked child (check: `run_isolated`): a segfault still ends in a verdict
 
 
 def _f3(clause: str, case: Any) -> bool:
@@ -115,6 +116,7 @@ def run(res: C.Result, deep: bool):
                 res.corr_diffs.append({"name": "corr:M5/build", "diff": what[:400],
                                        "case": {"class": cls.__name__, "style": style, "subseed": sub, "timecode": False,
                                                 "protocol": [l if len(l) < 400 else l[:400] + "..." for l in blk]}})
+        C.crumb({"class": cls.__name__, "style": style, "subseed": sub, "timecode": False})
         try:
             m = SC.build(W, cls, random.Random(sub), style)
         except Exception as e:  # noqa: BLE001  an in-domain value was refused by the validated field API
